@@ -37,20 +37,16 @@ def analyse(tm):
     for p, func, repl, boolval in roots_and_roles(tm):
         classes = [None]
         if tm.arch == "arm":
-            classes = ARM_CLASSES
-        for cls in classes:
+            classes = list(ARM_CLASSES)
+        work = list(classes)
+        while work:
+            cls = work.pop(0)
             if cls is None:
                 vs = tm.variants(p)
-                f = func
             else:
                 vs = arm_class_variants(tm, p, cls)
-                f = None
+            batch = []
             for v in vs:
-                if cls is not None:
-                    # the function pointer of this class-abstracted run
-                    f = None
-                    for ev in code_writes(v):
-                        pass
                 cw = classify_writes(v, func) if cls is None else [(ev, "entry", ev.extra["dst"], ev.extra["dst"], None) for ev in code_writes(v)]
                 for ev, role, dst, real, alias in cw:
                     r = PatchRec(root=p, cls=cls, variant=v, role=role, ev=ev, pc=real, dst=dst, alias=alias, func=func, repl=repl,
@@ -72,7 +68,12 @@ def analyse(tm):
                         r.sim = e.sim
                     except isa.Undecodable as e:
                         r.err = str(e)
-                    recs.append(r)
+                    batch.append(r)
+            # ARM: the encoder may split on further address bits; if the bytes are not constant in this class, refine it
+            if cls is not None and len(cls[1]) < 4 and any(r.err and "non-instruction" in r.err for r in batch):
+                work = refine_arm_class(cls) + work
+                continue
+            recs.extend(batch)
     return recs
 
 
